@@ -80,8 +80,11 @@ package fiber
 //@   modifies heap(MD_string_any), heap(MV_string_any)
 
 // Render(name, bind, layouts...): the mount list is scanned from the end, index in range, terminates.
+// [C05] The view bindings and locals of the request are merged into a COPY of the handler's Map (maps.Clone, assumed
+// contract deps/maps.spec): a Map the application shares between requests never receives one request's bindings.
 //@ func (*DefaultCtx).Render
 //@   requires wf-immutable: wfImmutable(c)
+//@   atcall (*DefaultCtx).renderExtensions: [C05] never-the-map-of-the-handler: typeis(old(bind), Map) ==> unbox(bind, Map) != unbox(old(bind), Map)
 //@   loop 1
 //@     invariant index-in-range: -1 <= i && i < len(c.app.mountFields.appListKeys)
 //@     invariant wf-immutable-kept: wfImmutable(c)
